@@ -321,9 +321,9 @@ def run_one(m, workers, runs_div, props_filter=None, tier="quick"):
             if props_filter and pid not in props_filter:
                 continue
             env = dict(os.environ)
-            env.update({"VERIF_REPO": d, "VERIF_OUT": os.path.join(d, "out"), "VERIF_WORKERS": str(workers), "PYTHONHASHSEED": "0",
+            env.update({"VERIF_REPO": d, "VERIF_OUT": os.path.join(d, "out"), "VERIF_WORKERS": str(workers), "PYTHONHASHSEED": "0", "VERIF_WALL_CAP": "2000",
                         "PYTHONDONTWRITEBYTECODE": "1"})
-            cmd = ["timeout", "900", PY, os.path.join(VERIF, "dst", "run.py"), pid, "--tier", tier, "--sweep"]
+            cmd = ["timeout", "2400", PY, os.path.join(VERIF, "dst", "run.py"), pid, "--tier", tier, "--sweep"]
             if runs_div > 1:
                 cmd += ["--runs-div", str(runs_div)]
             t0 = time.time()
